@@ -11,14 +11,14 @@ CONSTANTS
   Writers = {1}
   RdThreads = {1}
   MapInit = 10
-  UsedInit = 0
+  UsedInit = 7
   Chunk = 10
   PutCost = 1
   TxnBeforeGate = TRUE
   NestedCloseClearsMark = FALSE
   ReadNotCounted = FALSE
   BatchMax = 1
-  MaxOps = 45
+  MaxOps = 22
   WithReads = FALSE
   Stride = 1
   Offset = 0
